@@ -1,10 +1,90 @@
 from ..props import reg, TRUSTED
 
-reg('C15', scenario='onion', level='exploration',
-    level_text='placeholder',
+_TOR = ('the simulated Tor models a Tor that knows both v2 and v3 services (version string 0.3.5.8; NEW:BEST yields RSA1024): '
+        'ADD_ONION arguments are read as control-spec 3.27 says (key first, remaining arguments in any order, names '
+        'case-insensitively); it rejects BasicAuth without clients, clients without BasicAuth, client auth on v3 keys, a '
+        'NonAnonymous flag that disagrees with its mode, a key whose address already exists; it answers ServiceID, '
+        'PrivateKey (only for NEW keys without DiscardPK) and ClientAuth (only for generated client keys)')
+_HSDESC = ('HS_DESC events are "650 HS_DESC <action> <address-without-.onion> <authtype> <hsdir> [descid] [REASON=..]"; they are '
+           'sent only while HS_DESC is subscribed, only between replies, and carry the address of the service they belong to '
+           '(for authenticated v2 services the id derived from the service key); each service tries each directory at most once')
+
+reg('C14', scenario='onion', level='exploration',
+    level_text='Seeded sampling of the option product of ephemeral-service creation through EphemeralOnionService.create, '
+               'EphemeralAuthenticatedOnionService.create and Tor.create_onion_service against a simulated Tor whose ADD_ONION '
+               'argument parser is written from control-spec 3.27 independently of txtorcon; the decoded key specifier, port '
+               'mappings, flags and client-auth entries are compared with the request, the returned service object with what the '
+               'simulated Tor answered, DEL_ONION with the ServiceID. The property is a function of the arguments (input '
+               'dominated): the schedule only varies reply-vs-HS_DESC timing and segmentation, so a clean run is sampling evidence '
+               'over the configuration cells that are reported (input_cells_hit), never exhaustive.',
     level_note=TRUSTED,
-    rule='placeholder',
+    rule='Each run: TorControlProtocol + TorConfig bootstrap, then 1-2 creations drawn from version {2,3} x key {none, DISCARD, bare '
+         'blob, prefixed blob, blob with CR / LF / CRLF} x detach x single-hop x auth {none, basic with 0..3 clients with/without '
+         'tokens} x 1..3 port mappings (int, (int,int), (int,"addr:port"), "virt addr:port", unix-socket pair and string), '
+         'each followed by confirmed uploads and remove().',
     params=dict(max_steps=500),
-    quick=dict(units=20000, wall_cap=150),
-    thorough=dict(units=400000, wall_cap=1500),
-    assumptions=[])
+    quick=dict(units=40000, wall_cap=150),
+    thorough=dict(units=800000, wall_cap=1500),
+    assumptions=[_TOR,
+                 'the order of Port= / ClientAuth= arguments and of flags is not compared (sets / per virtual port); a bare local '
+                 'port chosen by txtorcon must be 127.0.0.1:<a port the simulated reactor handed out>',
+                 'after creation private_key may be the caller\'s key as given or with its type prefix added; under DISCARD it '
+                 'must be None once create() has fired (before the reply the DISCARD marker itself is what the attribute holds)',
+                 'a creation whose Deferred never fires (authenticated service with DISCARD, see C15) is only checked on the wire',
+                 'caller-supplied v2 keys are valid RSA-1024 blobs (the library parses them for authenticated services)'])
+
+reg('C15', scenario='onion', level='exploration',
+    level_text='Seeded exploration of the orderings of {UPLOAD, UPLOADED, FAILED for 1-4 directories of the service itself; the same '
+               'for a second, foreign service on shared directories; CREATED / REQUESTED / RECEIVED noise; the reply to '
+               'ADD_ONION / SETCONF, which the simulated Tor may write before, between or after the events; segmentation} for '
+               'ephemeral and filesystem services (plain and authenticated) in both waiting modes. Oracle from the simulated '
+               'Tor\'s own record with stream offsets: when the create() Deferred fires there must exist a prefix of the delivered '
+               'own events satisfying the completion (>=1 own UPLOADED / all attempted resolved with a success) or failure (all '
+               'attempted failed) condition; at quiescence the liveness clauses for events delivered after the reply, '
+               'TorControlProtocol.events without HS_DESC, last SETEVENTS without HS_DESC, no AlreadyCalledError. Right level: '
+               'the property is quantified over event orderings, which the scheduler permutes by the thousand per second.',
+    level_note=TRUSTED,
+    rule='Each run: bootstrap, one creation (EphemeralOnionService / EphemeralAuthenticatedOnionService / FilesystemOnionService / '
+         'FilesystemAuthenticatedOnionService .create, Tor.create_onion_service, Tor.create_filesystem_onion_service; '
+         'await_all_uploads None/False/True; rarely the creating command is answered 5xx), own upload plan over 1-4 directories '
+         'with outcomes UPLOADED / FAILED / never resolved, foreign plan over 0-4 directories (shared with ours), <= ~20 HS_DESC events.',
+    params=dict(max_steps=500),
+    quick=dict(units=40000, wall_cap=150),
+    thorough=dict(units=800000, wall_cap=1500),
+    assumptions=[_HSDESC,
+                 'the Deferred fires after the unsubscription round trip, so the conditions are evaluated existentially over the '
+                 'prefixes of the delivered own events, not on the state at the instant of firing',
+                 'uploads whose UPLOAD event was written before the creating reply are not counted as "attempted" (an ephemeral '
+                 'service has no address to match on before the reply); liveness is demanded only in runs where no own event was '
+                 'written before the reply, the reply was 250 and the connection is up',
+                 'a creation that failed because Tor rejected the creating command must also leave no HS_DESC subscription',
+                 'filesystem services: the simulated Tor writes hostname / private_key / hs_ed25519_secret_key / client_keys when it '
+                 'accepts the SETCONF (possibly before it writes the reply)'])
+
+reg('C17', scenario='onion', level='fault_enumeration',
+    level_text='Failure-step enumeration: every drawn endpoint configuration (constructor with a TorConfig / fired Deferred / pending '
+               'Deferred, Tor.create_*_endpoint, serverFromString("onion:...:controlPort=9051") through the Twisted plugin system; '
+               'ephemeral / filesystem x auth none / basic / stealth x version x key x single-hop x explicit / implicit directory) is '
+               'run once without failure and once per failure step of listen(): configuration unavailable, listenTCP raises, '
+               'ADD_ONION / SETCONF answered 5xx, every upload FAILED, control connection lost before the reply, control connection '
+               'lost during the descriptor wait - determinism makes the runs share their prefix. Oracle: listening-port table of '
+               'the simulated reactor, the port mapping decoded by the simulated Tor, getHost() of the result, C15\'s completion '
+               'condition at the instant listen() fires, stopListening(); on failure the error and an empty port table; invalid '
+               'option combinations must raise ValueError with reactor and control connection untouched. Configurations are '
+               'sampled, the failure steps per configuration are complete.',
+    level_note=TRUSTED,
+    technique='deterministic simulation: exhaustive failure-step sweep over seeded endpoint configurations',
+    rule='Each unit: one seeded configuration run without failure, then re-run with one failure injected at each of the 6 steps '
+         '(steps behind the gate of a recorded defect only in the dedicated share of units).',
+    params=dict(max_steps=700),
+    quick=dict(units=5000, wall_cap=150, chunk=20),
+    thorough=dict(units=100000, wall_cap=1500, chunk=50),
+    assumptions=[_HSDESC,
+                 'onion: strings are exercised with controlPort= (system_tor); the forms that launch a global Tor are not simulated here',
+                 'a connection lost during the descriptor wait makes nothing fail in the statement; listen() may stay pending then '
+                 '(not reported); if it fails the listener must be gone',
+                 'invalid combinations built through Tor.create_authenticated_onion_endpoint are tried with the configuration already '
+                 'fetched (get_config() is an argument expression and would otherwise talk to Tor before the constructor can refuse)',
+                 'getHost().onion_uri is compared when Tor assigned one hostname to all clients (always for unauthenticated and basic '
+                 'services); authenticated services with DISCARD are not generated (see C15)',
+                 'a local target written as a bare port number would be accepted as 127.0.0.1:port'])
